@@ -65,6 +65,7 @@ def range_iter(ex, r):
 def to_iter(ex, v):
     """IntoIterator::into_iter on a runtime value"""
     if isinstance(v, IterV): return v
+    if isinstance(v, Agg) and v.ty == 'CaseIter': return IterV(src=list(v.fields[0]), tag='case-iter')      # char::to_uppercase()
     if isinstance(v, Ptr):
         inner = ex.load(v)
         if isinstance(inner, IterV): return inner
